@@ -222,7 +222,8 @@ func c11Enumerate(tier string, f func(i int64, mk func() c11Case) bool) {
 	}
 }
 
-var c11ParsedDocs [][]*yqlib.CandidateNode
+// c11Cat is set by c11Exec to the outcome category of the last case (vacuity signal in the evidence)
+var c11Cat string
 
 // c11Exec runs one case; a panic is recovered and returned as (stack, true).
 func c11Exec(cs c11Case) (sig string, detail string) {
@@ -241,8 +242,10 @@ func c11Exec(cs c11Case) (sig string, detail string) {
 	case "expr":
 		e, err := yqlib.ExpressionParser.ParseExpression(cs.Text)
 		if err != nil || e == nil {
+			c11Cat = "expr:rejected-by-parser"
 			return "", ""
 		}
+		c11Cat = "expr:evaluated-error-only"
 		for _, d := range c11Docs {
 			docs, derr, _ := impl.DecodeYAML(d)
 			if derr != nil {
@@ -252,6 +255,9 @@ func c11Exec(cs c11Case) (sig string, detail string) {
 				res, eerr, pan := impl.Eval(e, root)
 				if pan != nil {
 					panic(pan)
+				}
+				if eerr == nil {
+					c11Cat = "expr:evaluated-with-results"
 				}
 				if eerr == nil && len(res) > 0 && len(res) < 200 {
 					if _, _, ppan := impl.PrintYAML(res); ppan != nil {
@@ -266,6 +272,7 @@ func c11Exec(cs c11Case) (sig string, detail string) {
 			return "harness", err.Error()
 		}
 		dec := f.DecoderFactory()
+		c11Cat = "decode:" + cs.Format + ":rejected"
 		if err := dec.Init(strings.NewReader(cs.Text)); err != nil {
 			return "", ""
 		}
@@ -274,6 +281,7 @@ func c11Exec(cs c11Case) (sig string, detail string) {
 			if err != nil {
 				break
 			}
+			c11Cat = "decode:" + cs.Format + ":decoded"
 			// what was decoded must also survive being printed
 			for _, of := range []string{"yaml", "json"} {
 				if _, _, ppan := impl.Print([]*yqlib.CandidateNode{n}, c11Encoder(of)); ppan != nil {
@@ -286,6 +294,7 @@ func c11Exec(cs c11Case) (sig string, detail string) {
 		if derr != nil {
 			return "", ""
 		}
+		c11Cat = "encode:" + cs.Format
 		docs2, _, _ := impl.DecodeYAML(cs.Doc)
 		for i, d := range docs2 {
 			d.SetDocument(uint(len(docs) + i))
@@ -405,6 +414,7 @@ func C11Child(tier string, shard, nshards int, from int64, deadlineUnix int64, p
 	defer w.Flush()
 	var ran int64
 	last := from
+	cats := map[string]int64{}
 	pf, err := os.OpenFile(progressPath, os.O_CREATE|os.O_WRONLY, 0o644)
 	if err != nil {
 		fmt.Fprintln(os.Stderr, err)
@@ -428,7 +438,9 @@ func C11Child(tier string, shard, nshards int, from int64, deadlineUnix int64, p
 			rec = append(rec, bytes.Repeat([]byte(" "), 4096-len(rec))...)
 		}
 		pf.WriteAt(rec, 0) // one write, no truncation: a reader never sees an empty record
+		c11Cat = ""
 		sig, detail := c11Exec(cs)
+		cats[c11Cat]++
 		ran++
 		last = i
 		if sig != "" {
@@ -439,7 +451,8 @@ func C11Child(tier string, shard, nshards int, from int64, deadlineUnix int64, p
 		}
 		return true
 	})
-	os.WriteFile(progressPath+".done", []byte(fmt.Sprintf("%d %d", ran, last)), 0o644)
+	cb, _ := json.Marshal(cats)
+	os.WriteFile(progressPath+".done", []byte(fmt.Sprintf("%d %d\n%s", ran, last, cb)), 0o644)
 	return 0
 }
 
@@ -533,6 +546,15 @@ func c11Run(c *fw.Ctx) error {
 	if b, err := os.ReadFile(progress + ".done"); err == nil {
 		var ran, last int64
 		fmt.Sscanf(string(b), "%d %d", &ran, &last)
+		if parts := strings.SplitN(string(b), "\n", 2); len(parts) == 2 {
+			cats := map[string]int64{}
+			if json.Unmarshal([]byte(parts[1]), &cats) == nil {
+				for k, n := range cats {
+					c.Count("outcome "+k, n)
+					c.Outcome(k)
+				}
+			}
+		}
 		c.Eval(ran)
 		c.Validated(ran)
 		c.Res.NontrivialN += ran // every enumerated case is distinct by construction (canonical enumeration without repetition)
